@@ -83,6 +83,68 @@ def _index_oracle(l, kind, ix):
         return [sum(1 for j in range(0, len(g), 2) if g[j] or g[j + 1]) for g, p in l]
 
 
+def c_list_forms(ctx, args):
+    """paulis(...) from every shape of description -- list / tuple / generator / several arguments; strings, code arrays, dictionaries (+N), ready-made Pauli objects, mixed --
+    builds the list whose rows are the individually described operators (what the strings say: rows [g, p])"""
+    be, rows, form, seed = args
+    rng = __import__('random').Random(seed)
+    I = impl(be)
+    lib = I.lib if hasattr(I, 'lib') else __import__('pyclifford' if be == 'np' else 'torchclifford')
+    n = len(rows[0][0]) // 2
+    pref = {0: '', 1: 'i', 2: '-', 3: '-i'}
+
+    def as_str(r):
+        return pref[r[1]] + ''.join('IXYZ'[c] for c in codes(r[0]))
+
+    def as_dict(r):
+        return {i: rng.choice(['IXYZ'[c], int(c)]) for i, c in enumerate(codes(r[0])) if c != 0}
+
+    def as_codes(r):
+        return __import__('numpy').array(codes(r[0]))
+
+    def as_obj(r):
+        return lib.pauli(as_str(r))
+    want = [[list(r[0]), r[1]] for r in rows]
+    kw = {}
+    if form == 'strings':
+        descr = [as_str(r) for r in rows]
+    elif form == 'dicts':
+        descr, kw = [as_dict(r) for r in rows], {'N': n}
+        want = [[list(r[0]), 0] for r in rows]
+    elif form == 'codes':
+        descr = [as_codes(r) for r in rows]
+        want = [[list(r[0]), 0] for r in rows]
+    elif form == 'objects':
+        descr = [as_obj(r) for r in rows]
+    else:                                   # mixed: each row in a form of its own; dictionaries and code arrays carry no phase
+        descr, want, kw = [], [], {'N': n}
+        for r in rows:
+            k = rng.choice(['s', 'd', 'c', 'o'])
+            descr.append({'s': as_str, 'd': as_dict, 'c': as_codes, 'o': as_obj}[k](r))
+            want.append([list(r[0]), r[1] if k in 'so' else 0])
+    shape = rng.choice(['list', 'tuple', 'args', 'generator'] + (['one'] if len(rows) == 1 else []))
+    if len(rows) == 1 and shape in ('args', 'one') and not isinstance(descr[0], (str, dict)) and not hasattr(descr[0], 'g'):
+        shape = 'list'        # a single code array given alone IS a sequence of descriptions (one per entry): nothing to decide there
+    try:
+        if shape == 'list':
+            l = lib.paulis(list(descr), **kw)
+        elif shape == 'tuple':
+            l = lib.paulis(tuple(descr), **kw)
+        elif shape == 'args' or shape == 'one':
+            l = lib.paulis(*descr, **kw)
+        else:
+            l = lib.paulis((d for d in descr), **kw)
+        got = I.oPL(l)
+    except Exception as e:
+        return {'kind': 'oracle', 'where': '%s:paulis(%s of %s) raised %s' % (be, shape, form, type(e).__name__), 'observed': str(e)[:150], 'expected': want, 'tags': ['list_forms', form, shape]}
+    if got != want:
+        return {'kind': 'oracle', 'where': '%s:paulis(%s of %s)' % (be, shape, form), 'observed': got, 'expected': want, 'tags': ['list_forms', form, shape]}
+    # a PauliList handed to paulis() is that list
+    if I.oPL(lib.paulis(l)) != want:
+        return {'kind': 'oracle', 'where': '%s:paulis(PauliList)' % be, 'observed': I.oPL(lib.paulis(l)), 'expected': want, 'tags': ['list_forms']}
+    return None
+
+
 def c_index(ctx, args):
     be, l, kind, ix = args[:4]
     form = args[4] if len(args) > 4 else 'array'
@@ -181,7 +243,7 @@ def c_repr_objects(ctx, args):
     return None
 
 
-CHECKS = {'repr_objects': c_repr_objects, 'poly_index': c_poly_index, 'roundtrip': c_roundtrip, 'parse_corr': c_parse_corr, 'formats': c_formats, 'index': c_index}
+CHECKS = {'list_forms': c_list_forms, 'repr_objects': c_repr_objects, 'poly_index': c_poly_index, 'roundtrip': c_roundtrip, 'parse_corr': c_parse_corr, 'formats': c_formats, 'index': c_index}
 
 
 def run(ctx):
@@ -243,5 +305,9 @@ def run(ctx):
         ix = {'slice': [rng.choice([None, 0, 1, -1, -2]), rng.choice([None, 1, 2, L, -1]), rng.choice([None, 1, 2])], 'mask': [rng.randint(0, 1) for _ in range(L)],
               'idx': [rng.randrange(L) for _ in range(rng.randint(1, 3))], 'int': rng.randrange(L)}[kind]
         do(ctx, 'poly_index', [be, terms, kind, ix], nontrivial=(be, 'pi', kind, str(terms), str(ix)))
+    for it in range(int(150 * B)):
+        n = rng.randint(1, 5)
+        rows = gen.rplist(rng, n, rng.randint(1, 4))
+        do(ctx, 'list_forms', [rng.choice(['np', 'np', 'torch']), rows, ['strings', 'dicts', 'codes', 'objects', 'mixed'][it % 5], rng.randrange(10 ** 6)], nontrivial=('lf', it))
     for _ in range(int(90 * B)):
         do(ctx, 'repr_objects', [rng.choice(['np', 'np', 'torch']), rng.choice(['list', 'map', 'state']), rng.randint(1, 4), rng.randrange(10 ** 6)], nontrivial=('ro', ctx.res.evaluations))
